@@ -252,6 +252,9 @@ func prefillValue(cs ColSpec, seed uint64, i int, col int) Value {
 	case KFloat64:
 		return Value{B: float64ToBits(float64(int64(h%2000)-1000) / 4)}
 	}
+	if !cs.Kind.Signed() {
+		return Value{B: canon(cs.Kind, h%1001)}
+	}
 	return Value{B: canon(cs.Kind, h%2001-1000)}
 }
 
